@@ -1577,9 +1577,16 @@ func main() {
 	outJSON := flag.String("json", "", "output JSON description")
 	outGo := flag.String("go", "", "output Go registry for the harness")
 	outFoot := flag.String("footprint", "", "output Coq file with the global-variable footprint of every function")
+	outDigests := flag.String("digests", "", "output JSON with a digest of the text of every codec function")
 	outHelpers := flag.String("helpers", "", "output Coq file with the memory facts (flow graph, make sites) of codec/*.go")
 	outLocks := flag.String("locks", "", "output Coq file with the lock skeletons of the checksum-service registry")
 	flag.Parse()
+	if *outDigests != "" {
+		func() {
+			defer func() { recover() }()
+			writeDigests(*root, *outDigests)
+		}()
+	}
 	if *outHelpers != "" {
 		func() {
 			defer func() {
